@@ -1,4 +1,4 @@
-"""C04 - JSON serialize -> parse identity."""
+"""C04 - JSON serialize -> parse is the identity for every value and option set."""
 
 PROP = dict(
     level="exploration",
@@ -9,8 +9,32 @@ PROP = dict(
              deps=("harness/c04/tree.hh", "shim/shim.hh", "oracle/c04_tree.py", "oracle/hyp_common.py"),
              shards_quick=8, shards_thorough=16, timeout_quick=400, timeout_thorough=1500),
     ],
-    rule="tbd",
-    assumptions=[],
-    min_evaluations_quick=1000,
-    technique="tbd", level_text="tbd", level_note="tbd",
+    rule=("A case is one value tree; each tree is evaluated under all 64 SerializeOption masks (evaluations count tree x mask). Trees "
+          "come from (i) a fixed list - boundary floats (1e20, 2e6, 1e-7, 999999.5, DBL_MAX, DBL_MIN, +-0.0 ...), INT64_MIN/MAX, every "
+          "byte value as a one-byte string and key, the 256-byte string, empty containers, each bare and inside a list - enumerated "
+          "completely; (ii) a rapidcheck recursive generator (depth <= 6, <= 44 nodes: null, bools, boundary-biased int64, finite normal "
+          "doubles from random bit patterns / 1..6 digits x 10^e with e in [-307,302] / a special list, byte strings and keys over all 256 "
+          "values with boosted quote, backslash, control bytes, 0x7F, 0x80-0xFF and the empty string, empty containers); (iii) a chain "
+          "generator nesting lists/dicts up to depth 100; (iv) Hypothesis-generated trees serialized under the four standard masks and "
+          "read by Python's json. Non-trivial: the tree has a container and (a float whose %g form has an exponent, or a string/key byte "
+          "outside 0x20-0x7E, or an empty container). Distinct = distinct case encodings (hash)."),
+    assumptions=["floats are finite normal doubles or +-0.0 (subnormals, inf and NaN are outside the stated domain and are never generated)",
+                 "floats are compared at the six significant digits %g keeps (equal '%.6g' text), ints exactly, strings byte-wise",
+                 "dictionary keys are unique (a repeated key in a generated dictionary is dropped before the value is built)",
+                 "'standard-compliant' output = option masks within {FORMAT, SORT_DICT_KEYS}, the only options JSON.hh documents as such",
+                 "Python json reads \\u00XX as U+00XX; strings are compared as latin-1 bytes"],
+    min_evaluations_quick=200000,
+    engine="rapidcheck + exhaustive enumerators + Hypothesis (Python json as independent reader)",
+    technique=("property-based round-trip testing: value trees built through the public constructors are serialized under all 64 option "
+               "masks by the real code (ASan+UBSan), parsed back and compared with an independent model tree through the public accessors; "
+               "re-serialization with sorted keys must reproduce the text; standard-mode text is additionally read by strict mode, by an "
+               "independent RFC 8259 reader written for the harness and by Python's json module; copies are mutated and destroyed and the "
+               "source compared with the model"),
+    level_text=("Exploration: every generated tree is checked under all 64 option masks against an explicit model, so any value shape in "
+                "the generated domain that does not survive serialize->parse, is not standard JSON in standard mode, or shares state with "
+                "its copy is reported with a shrunk replayable tree. It shows the identity on everything explored (about 10^6 tree x mask "
+                "evaluations in the quick tier, 2x10^7 in the thorough tier); it is not a proof for all trees."),
+    level_note=("Trusts the harness's model tree, its %.6g comparison, the harness RFC 8259 reader and CPython's json module as independent "
+                "readers. Key order under SORT_DICT_KEYS is checked through Python (keys in byte order); the exact whitespace layout of "
+                "FORMAT is not part of the property."),
 )
